@@ -279,9 +279,30 @@ def gen_multi(rng):
     return ops
 
 
+def gen_switch(rng):
+    """a resource's only flow rule is replaced by a rule of another kind with the same statistic interval (throttling keeps no
+    statistic; reject and warm-up do): the new rule takes effect at once, on a statistic of its own kind (seed C08-e)"""
+    ops = ["clock"]
+    ivl = rng.choice([0, 1000, 2000, 1500])
+    kinds = {"thr": "%d:%d:d:t:0:0:%d" % (rng.choice([2, 5]), ivl, rng.choice([0, 500])),
+             "rej": "%d:%d" % (rng.choice([2, 3, 5]), ivl),
+             "warm": "%d:%d:w:r:%d:3:0" % (rng.choice([30, 50]), ivl if ivl in (0, 1000) else 0, rng.randint(1, 2))}
+    order = rng.sample(list(kinds), rng.choice([2, 3]))
+    eid = 0
+    for gno, k in enumerate(order):
+        ops.append("flow.load res=r rules=%s%d:%s" % (k[0], gno, kinds[k]))
+        for _ in range(rng.randint(4, 14)):
+            ops.append("adv ms=%d" % rng.choice([0, 0, 1, 20, 100, 300, 500, 1000]))
+            eid += 1
+            ops.append("build e=%d res=r batch=1 dir=out" % eid)
+            if rng.random() < 0.5:
+                ops.append("exit e=%d" % eid)
+    return ops
+
+
 def gen_own(rng, tier):
     n = 500 if tier == "quick" else 25000
-    return [gen_case(rng) if i % 5 else gen_multi(rng) for i in range(n)]
+    return [gen_switch(rng) if i % 10 == 3 else gen_case(rng) if i % 5 else gen_multi(rng) for i in range(n)]
 
 
 def gen(rng, tier):
